@@ -76,6 +76,7 @@ class SimSlave:
         self.refused = 0
         self.push_hook = None                # push mode: called with every emitted event (webhooks)
         self.request_hook = None             # called with (method, path) when a request reaches the device
+        self.passwords = {}                  # *_password device attributes are write-only: kept here, never shown by GET /device
         self.slow = {}                       # port id -> ['never'] | ['later', ms]: PATCH .../value is answered 202 Accepted
         self.expire_hook = None              # called with (session id, number of undelivered events) when a session expires
         self.delivered = []                  # [ms, kind, payload]  every answer that reached the master, in arrival order
@@ -214,6 +215,9 @@ class SimSlave:
                 for n, v in body.items():
                     if n in ('name', 'flags'):
                         return 400, {'error': 'attribute-not-modifiable', 'attribute': n}
+                    if n.endswith('_password'):
+                        self.passwords[n] = v
+                        continue
                     if self.device.get(n) != v:
                         self.device[n] = v
                         changed = True
